@@ -69,6 +69,9 @@ type W struct {
 // Beat records a sign of life for the per-case watchdog.
 func (w *W) Beat() { atomic.StoreInt64(&w.beat, time.Now().UnixNano()) }
 
+// Extend tells the watchdog that the next sign of life may take up to d (e.g. while a helper process runs).
+func (w *W) Extend(d time.Duration) { atomic.StoreInt64(&w.beat, time.Now().Add(d).UnixNano()) }
+
 // StartWatchdog kills the process (exit 4, after dumping all goroutine stacks) when no
 // case completed for limit; the parent then treats the breadcrumb as a hang candidate.
 func (w *W) StartWatchdog(limit time.Duration) {
@@ -121,7 +124,15 @@ func (w *W) RNG(stream string) *rand.Rand {
 // Mine reports whether global index i belongs to this shard.
 func (w *W) Mine(i int) bool { return i%w.NShards == w.Shard }
 
-func (w *W) Eval(n int)                 { w.st.Evaluations += int64(n) }
+// Eval counts n executions of the code under test and is the watchdog's sign of life.
+func (w *W) Eval(n int) {
+	before := w.st.Evaluations
+	w.st.Evaluations += int64(n)
+	if before>>6 != w.st.Evaluations>>6 || n > 1 {
+		w.Beat()
+	}
+}
+
 func (w *W) Count(key string)           { w.st.Counters[key]++ }
 func (w *W) CountN(key string, n int64) { w.st.Counters[key] += n }
 func (w *W) Skip(key string)            { w.st.Skipped[key]++ }
